@@ -90,39 +90,6 @@ rec_mktemp(struct value *v, unsigned id, u64 val)
 	v->u.i = val;
 }
 
-#ifdef REC_LIGHT
-/* record-only variant for units that must run with --no-simplify (no constant folding in symex: every call site of
- * funcinst in the function under contract is explored, so the stub has to be tiny).  The instruction is NOT executed
- * here; the unit evaluates rec.last with rec_eval_last() after the call. */
-struct value *
-rec_funcinst(struct func *f, int op, int class, struct value *arg0, struct value *arg1)
-{
-	struct inst *inst;
-
-	(void)f;
-	++rec.n;
-	rec.last.op = op;
-	rec.last.cls = class;
-	rec.last.arg[0] = arg0;
-	rec.last.arg[1] = arg1;
-	inst = malloc(sizeof(*inst));
-	__CPROVER_assume(inst != 0);
-	inst->res.kind = VALUE_TEMP;
-	rec.last.resp = &inst->res;
-	return &inst->res;
-}
-
-/* ghost value of the result of the last recorded instruction; *ok cleared if the oracle gives it no meaning */
-static u64
-rec_eval_last(bool *ok)
-{
-	u64 r = qbe_sem_int(rec.last.op, rec.last.cls, rec_ghost(rec.last.arg[0]), rec_ghost(rec.last.arg[1]), ok);
-
-	if (rec.last.cls == 'w')
-		r = QBE_W_RESULT(r, nondet_rec_u64());
-	return r;
-}
-#else
 struct value *
 rec_funcinst(struct func *f, int op, int class, struct value *arg0, struct value *arg1)
 {
@@ -211,6 +178,5 @@ rec_funcinst(struct func *f, int op, int class, struct value *arg0, struct value
 		rec.first = rec.last;
 	return &inst->res;
 }
-#endif
 
 #endif
